@@ -197,9 +197,8 @@ def run(cx: Cx):
     for q in (BATCH + '_run_model_for_batch', BATCH + '_run_model_for_search', BATCH + '_build_model_from_kwargs'):
         f = cx.fn(q)
         mod = f.module
-        bad = [n for n in ast.walk(f.node) if isinstance(n, ast.Name) and isinstance(n.ctx, ast.Load) and n.id in mod.assigns
-               and not isinstance(mod.assigns[n.id], ast.Constant)]
-        bad += [n for n in ast.walk(f.node) if isinstance(n, (ast.Global, ast.Nonlocal))]
+        from .common import module_state_reads
+        bad = module_state_reads(f)
         if bad:
             cx.violation('R-ENTROPY', f.qualname, 'worker-reads-no-module-state', f"{f.name} reads module-level state "
                          f"({getattr(bad[0], 'id', 'global')}): a run depends on which runs the same worker process executed before",
